@@ -340,11 +340,19 @@ class Types:
         for rx, ct in self.extra.items():
             if re.fullmatch(rx, t):
                 return self.note(ct, self.cfg.get('type_kinds', {}).get(ct, 'handle'))
+        if re.match(r'^[\w:<>, \*&]+ \((\*|&)\)\(.*\)$', t) or (re.match(r'^[\w:<>, \*&]+ \(.*\)$', t) and not t.startswith('decltype')):
+            return self.note('function_t', 'handle')     # function type / pointer / reference: an identity
         if re.match(r'^(const )?char ?\[\d*\]$', t) or t in ('char *', 'const char *', 'char *const', 'const char *const'):
             return self.note('str_t', 'handle')      # C strings: interned like std::string
         if t in SCALARS:
             return self.note(SCALARS[t], 'scalar')
         m = re.match(r'^std::(?:remove_reference|remove_cv|remove_const|decay|remove_cvref)<(.*)>::type$', t)
+        if m:
+            inner = strip_cvref(m.group(1))
+            if not inner.startswith(('std::', 'Oomd::')) and '<' in inner:
+                inner = 'std::' + inner
+            return self.ctype(inner)
+        m = re.match(r'^(?:std::)?__decay_and_strip<(.*)>::__type$', t)
         if m:
             inner = strip_cvref(m.group(1))
             if not inner.startswith(('std::', 'Oomd::')) and '<' in inner:
@@ -402,6 +410,9 @@ class Types:
                 return inner          # pointer to opaque object == its handle
             return inner + ' *'
         name, args = tmpl(t)
+        if args is not None and name in ('pair', 'tuple', 'vector', 'optional', 'function', 'unordered_map', 'unordered_set',
+                                         'map', 'set', 'deque', 'unique_ptr', 'shared_ptr', 'reference_wrapper', 'array'):
+            name = 'std::' + name      # printed without the namespace inside other std templates
         if name in ('__optional_eq_t', '__optional_ne_t', '__optional_lt_t', '__optional_gt_t', '__optional_le_t',
                     '__optional_ge_t', 'std::__optional_eq_t', 'std::__optional_ne_t', 'std::__optional_lt_t',
                     'std::__optional_gt_t', 'std::__optional_le_t', 'std::__optional_ge_t'):
